@@ -25,7 +25,7 @@ RULE = ("cases: (a) ill-defined models by construction: self reference, cycles o
         ' Classes added after the seeded rounds: sub-proposition next to a leaf with the same id, generated-id collisions, cross-branch cycles, same id and same child ids with differences one level further down.')
 BUDGET = {"quick": (12, 1500, 90), "thorough": (16, 4000, 1200)}
 ILL = ["self-ref", "cycle", "cycle-cross-branch", "deep-ambivalence", "compound-sign-symmetric", "dup-child-by-negation", "dup-child", "dup-child-ref-leaf", "generated-id-collision", "compound-value-twin", "leaf-bounds", "leaf-bounds-twin", "compound-sign", "compound-value",
-       "compound-children", "compound-children-twin", "leaf-vs-compound", "compound-bounds", "compound-compound-child"]
+       "compound-children", "compound-children-twin", "leaf-vs-compound", "compound-bounds", "compound-compound-child", "cc-default-vs-plain"]
 PYTEST = True     # thorough tier also runs the repository's own tests under these monitors
 MANDATORY = ["judged:accepted=>well-defined", "judged:tree=>accepted", "judged:sharing=>accepted", "contract:AtLeast.errors"] + \
             ["count:ill:" + c for c in ILL] + ["count:ill-rejected", "count:class:tree", "count:class:share-identity",
@@ -241,6 +241,17 @@ def build_ill(cls, rng):
         mk = lambda inner: rng.choice([pg.All, pg.Any])("a", inner, variable="S")
         k = rng.choice([pg.All, pg.Any])
         return pg.All(pg.Any(k("a", pg.All("x", "y", variable="C1"), variable="S"), "p", variable="B"), pg.Any(k("a", other(), variable="S"), "q", variable="C"), variable="A")
+    if cls == "cc-default-vs-plain":
+        # an option group with a default is stored as Any(default, Any(rest)); a plain proposition with the same id over the unsplit members is another definition
+        import puan.modules.configurator as ccm
+        mem = rng.sample(["a", "b", "c", "d"], rng.randint(3, 4))
+        d = rng.choice(mem)
+        if rng.random() < 0.5:
+            grp, plain = ccm.Any(*mem, default=[d], variable="X"), pg.Any(*mem, variable="X")
+        else:
+            grp = ccm.Xor(*mem, default=[d], variable="X")          # its at-least-one half keeps the generated id of Any(*mem)
+            plain = pg.Any(*mem)
+        return pg.All(pg.Any(grp, "p", variable="B"), pg.Any(plain, "q", variable="C"), variable="A")
     if cls == "leaf-vs-compound":
         b = rng.choice([(0, 3), (1, 1), (-1, 1), (0, 0)])
         return pg.All(pg.Any("x", "y", variable="S"), pg.Any(puan.variable("S", b), "q", variable="C"), variable="A")
